@@ -209,3 +209,68 @@ func (w *World) R87(r *oblig.Report) {
 	_ = sites
 	_ = bad
 }
+
+// R87Decls: the functions the generated Go parser file declares are those the ANTLR Go target generates for this
+// grammar — one method of *OpenFGAParser per grammar rule and nothing else on the parser, and at package level only
+// the parser constructor / initialisers and the three context constructors per rule. A helper added by hand (a
+// lookahead shortcut, a "fast path") is behaviour the other targets and the embedded automaton do not have.
+func (w *World) R87Decls(r *oblig.Report, rule string) {
+	art := w.Arts["go/parser"]
+	if art == nil {
+		r.Unknown(rule, "gen-decls:anchor", "-", "Go parser artefact missing")
+		return
+	}
+	path := filepath.Join(w.Root, genDirs["go"], "openfga_parser.go")
+	fset := token.NewFileSet()
+	f, err := parser.ParseFile(fset, path, nil, 0)
+	if err != nil {
+		r.Unknown(rule, "gen-decls:parse", rel(w.Root, path), err.Error())
+		return
+	}
+	rules := map[string]bool{}
+	for _, n := range art.Rules {
+		rules[upperFirst(n)] = true
+	}
+	seenRule := map[string]bool{}
+	bad := 0
+	for _, d := range f.Decls {
+		fd, ok := d.(*ast.FuncDecl)
+		if !ok {
+			continue
+		}
+		pos := fmt.Sprintf("%s:%d", rel(w.Root, path), fset.Position(fd.Pos()).Line)
+		if fd.Recv != nil {
+			st, ok := fd.Recv.List[0].Type.(*ast.StarExpr)
+			if !ok || fmt.Sprint(st.X) != "OpenFGAParser" {
+				continue // methods of the context types
+			}
+			if rules[fd.Name.Name] {
+				seenRule[fd.Name.Name] = true
+				continue
+			}
+			bad++
+			r.Bad(rule, "gen-decls:parser-method:"+fd.Name.Name, pos, "the generated parser declares the method "+fd.Name.Name+", which is not the function of a grammar rule: ANTLR generates one parser method per rule and no other; this one was added by hand")
+			continue
+		}
+		n := fd.Name.Name
+		okName := n == "NewOpenFGAParser" || n == "OpenFGAParserInit" || n == "openfgaparserParserInit"
+		for _, pre := range []string{"NewEmpty", "InitEmpty", "New"} {
+			if strings.HasPrefix(n, pre) && strings.HasSuffix(n, "Context") && rules[strings.TrimSuffix(strings.TrimPrefix(n, pre), "Context")] {
+				okName = true
+			}
+		}
+		if !okName {
+			bad++
+			r.Bad(rule, "gen-decls:function:"+n, pos, "the generated parser file declares the function "+n+", which ANTLR does not generate for this grammar")
+		}
+	}
+	for name := range rules {
+		if !seenRule[name] {
+			bad++
+			r.Bad(rule, "gen-decls:missing:"+name, rel(w.Root, path), "grammar rule "+name+" has no parser method in the generated Go file")
+		}
+	}
+	if bad == 0 {
+		r.OK(rule, "gen-decls", rel(w.Root, path), "declared-set", fmt.Sprintf("%d parser methods, one per grammar rule; only generated constructors at package level", len(seenRule)))
+	}
+}
